@@ -13,5 +13,5 @@ if __name__ == '__main__':
         'C04', ['c04'],
         'TLC-generated models rendered to SQL by /repo; DDL reader; TraceSql.tla compares the foreign keys and join tables read back '
         'with SqlExec!ExpFks / ExpJoinTables and requires every ALTER TABLE to be executable',
-        'case = (model seed, route in {parsed, built}); non-trivial = the model has >= 1 reference',
+        'case = (model seed, route in {parsed, built, morphed = built from other content, rendered, edited in place}); non-trivial = the model has >= 1 reference',
         lambda it: bool(it['model']['refs']), 90001, 350, 6000))
